@@ -437,7 +437,7 @@ def check_lang(case):
 
 # ------------------------------------------------------------------ row -----------------
 NAMES = ["a", "b", "d", "e", "f", "g"]
-Q_TRIG = ["image", "image-maxpx", "subscriberid", "simserial", "deviceid", "phonenumber", "disabled-no", "disabled-yes", "comment"]
+Q_TRIG = ["image", "image-maxpx", "image-app", "image-app-maxpx", "subscriberid", "simserial", "deviceid", "phonenumber", "disabled-no", "disabled-yes", "comment"]
 C_TRIG = ["nolabel", "nolabel-fieldlist", "nolabel-media", "disabled-no", "label-tablelist", "label-fieldlist", "label-custom", "nolabel-tablelist", "nolabel-custom", "label-hint"]
 
 
@@ -464,6 +464,12 @@ def build_row(forest, trig):
                     exp[("maxpx", rn)] += 1
                 elif tg == "image-maxpx":
                     r = {"type": "image", "name": nm, "label": nm, "parameters": "max-pixels=640"}
+                elif tg == "image-app":
+                    # other parameters do not stand in for max-pixels
+                    r = {"type": "image", "name": nm, "label": nm, "parameters": "app=com.example.cam"}
+                    exp[("maxpx", rn)] += 1
+                elif tg == "image-app-maxpx":
+                    r = {"type": "image", "name": nm, "label": nm, "parameters": "app=com.example.cam max-pixels=320"}
                 elif tg in ("subscriberid", "simserial"):
                     r = {"type": tg, "name": nm}
                     exp[("deprecated", rn, tg)] += 1
